@@ -43,8 +43,10 @@ Print Assumptions C02_atomic_lines_threshold.
 
 (** Whatever the destination's Write calls RETURN (success, short write, any error - a closed file, a broken
     pipe, a full disk): the result of a Write is no input of the model, so the atomicity theorem holds for
-    every assignment of results to the labels of the schedule.  In particular an enabled record logged after
-    a failed Write still causes exactly one Write with its complete line. *)
+    every assignment of results to the labels of the schedule - including [WPanic], a Write that unwinds
+    instead of returning: under the discipline Unlock and freeBuffer are deferred, so the unwinding performs the
+    same actions as a return.  In particular an enabled record logged after a failed or panicking Write still
+    causes exactly one Write with its complete line. *)
 Theorem C02_write_results_do_not_matter :
   forall (D R : Type) (line : list D -> R -> list N) (enabled : R -> bool) (grow : N -> N -> N)
          (f : cflags) (prog : list (list (instr D R))) (sched : list (label * wresult)) (s : state D R),
@@ -53,7 +55,7 @@ Theorem C02_write_results_do_not_matter :
   Permutation (dest D R s) (expected D R line enabled prog)
   /\ no_overlap None (map fst sched) = true
   /\ (forall t, t < length prog -> count_writes t (map fst sched) = length (lines_of D R line enabled (nth t prog []))).
-Proof. intros until s; intros Hd Hr Hf. rewrite rrun_run in Hr. edestruct atomic_lines as (H1 & H2 & H3 & _); eauto. Qed.
+Proof. intros until s; intros Hd Hr Hf. rewrite rrun_run in Hr by (apply discipline_unlock_deferred; exact Hd). edestruct atomic_lines as (H1 & H2 & H3 & _); eauto. Qed.
 Print Assumptions C02_write_results_do_not_matter.
 
 (** In every reachable state a thread that is inside Write holds the mutex of its handler. *)
@@ -110,41 +112,52 @@ Print Assumptions C02_atomic_lines_from_facts.
 
 (** What the discipline buys: with one flag off the model performs the defect (witnesses by computation). *)
 Theorem no_reset_refuted :
-  exists prog sched s, wrun (mkCF true true true false true true true) (winit prog) sched = Some s
+  exists prog sched s, wrun (mkCF true true true false true true true true) (winit prog) sched = Some s
     /\ finished unit N s = true /\ ~ Permutation (dest unit N s) (wexpected prog).
 Proof. exact no_reset_refuted_w. Qed.
 Print Assumptions no_reset_refuted.
 
 Theorem second_write_refuted :
-  exists prog sched s, wrun (mkCF false true true true true true true) (winit prog) sched = Some s
+  exists prog sched s, wrun (mkCF false true true true true true true true) (winit prog) sched = Some s
     /\ finished unit N s = true /\ ~ Permutation (dest unit N s) (wexpected prog).
 Proof. exact second_write_refuted_w. Qed.
 Print Assumptions second_write_refuted.
 
 Theorem write_outside_lock_refuted :
-  exists prog sched, wrun (mkCF true false true true true true true) (winit prog) sched <> None
+  exists prog sched, wrun (mkCF true false true true true true true true) (winit prog) sched <> None
     /\ no_overlap None sched = false.
 Proof. exact write_outside_lock_refuted_w. Qed.
 Print Assumptions write_outside_lock_refuted.
 
 Theorem cloned_mutex_refuted :
-  exists prog sched, wrun (mkCF true true false true true true true) (winit prog) sched <> None
+  exists prog sched, wrun (mkCF true true false true true true true true) (winit prog) sched <> None
     /\ no_overlap None sched = false.
 Proof. exact cloned_mutex_refuted_w. Qed.
 Print Assumptions cloned_mutex_refuted.
 
 Theorem early_free_refuted :
-  exists prog sched s, wrun (mkCF true true true true true true false) (winit prog) sched = Some s
+  exists prog sched s, wrun (mkCF true true true true true true false true) (winit prog) sched = Some s
     /\ finished unit N s = true /\ ~ Permutation (dest unit N s) (wexpected prog).
 Proof. exact early_free_refuted_w. Qed.
 Print Assumptions early_free_refuted.
 
 Theorem late_gate_refuted :
-  exists prog sched s, wrun (mkCF true true true true true false true) (winit prog) sched = Some s
+  exists prog sched s, wrun (mkCF true true true true true false true true) (winit prog) sched = Some s
     /\ finished unit N s = true
     /\ count_formats 0 sched <> length (lines_of unit N wline wen (nth 0 prog [])).
 Proof. exact late_gate_refuted_w. Qed.
 Print Assumptions late_gate_refuted.
+
+(** The Unlock must be DEFERRED: when it is an explicit call after the Write, a Write that panics (recovered above the
+    logging call, as net/http and Relay do) leaves the mutex locked for good - the panicking goroutine's call is over,
+    the other goroutine has formatted its record and can never take the lock. *)
+Theorem unlock_not_deferred_refuted :
+  exists s, wrrun (mkCF true true true true true true true false) (winit [[ILog [] 1%N]; [ILog [tt] 2%N]]) panic_sched = Some s
+    /\ finished unit N s = false
+    /\ step unit N wline wen wgrow (mkCF true true true true true true true false) s (LLock 1) = None
+    /\ idle_done unit N (thr unit N s 0) = true.
+Proof. exact unlock_not_deferred_refuted_w. Qed.
+Print Assumptions unlock_not_deferred_refuted.
 
 (** Non-vacuity: the disciplined model runs two threads and three records (one disabled) to the
     end and delivers two whole lines; the overlapping schedule is refused by it. *)
